@@ -154,6 +154,11 @@ def ref_next_imf(x, envelope, env_step_size=1, max_iters=1000, stop_method='sd',
         dp = np.abs(np.diff(p[:, 0]))
         scale = np.max(np.abs(p)) or 1.0
         info['tie'] = float(dp.min() / scale) if len(dp) else 1.0
+        # decision margin of this iteration's own extrema search; exact ties (difference exactly 0)
+        # are not rounding-sensitive and are reported separately
+        nz = dp[dp > 0]
+        info['tie_in'] = info['tie']
+        info['tie_in_nz'] = float(nz.min() / scale) if len(nz) else 1.0
         trace.append(info)
         if stop:
             dx = np.abs(np.diff(x1[:, 0]))
@@ -166,3 +171,16 @@ def guard_margin(trace):
     if not trace:
         return 1.0
     return min(min(t['margin'], t['tie']) for t in trace)
+
+
+def guard_margin_single(trace):
+    """Margin for comparing the result of ONE extraction under an exact-tie-preserving transform
+    (scaling, time reversal): only decisions taken inside the extraction count (not the ties of the
+    returned iterate), and exact ties in the *input* of the first iteration are safe because strict
+    comparisons of exactly equal samples are not rounding-sensitive."""
+    if not trace:
+        return 1.0
+    g = 1.0
+    for i, t in enumerate(trace):
+        g = min(g, t['margin'], t['tie_in_nz'] if i == 0 else t['tie_in'])
+    return g
